@@ -4,8 +4,8 @@ from ..core import f2b, b2f, run_harness, run_driver
 from ..cmp import cmp_bits_list
 from .. import samples as S, sample_checks as SC
 
-MODULE = "Momtrop.Props.C13"
-THEOREMS = ["Momtrop.C13.boxMuller_def", "Momtrop.C13.gaussianAt_def", "Momtrop.C13.qVectors_component", "Momtrop.C13.qReads_def", "Momtrop.C13.pair_in_range", "Momtrop.C13.box_muller_radius", "Momtrop.C13.box_muller_polar"]
+MODULE = "Momtrop.Props.C13BM"
+THEOREMS = ["Momtrop.C13.boxMuller_def", "Momtrop.C13.gaussianAt_def", "Momtrop.C13.qVectors_component", "Momtrop.C13.qReads_def", "Momtrop.C13.pair_in_range", "Momtrop.C13.box_muller_radius", "Momtrop.C13.box_muller_polar", "Momtrop.C13.boxMuller_law", "Momtrop.C13.boxMuller_law_model"]
 RULE = ("(i) sample_q_vectors through the hook for every D=1..6 x L=1..5 with random tails, a in {2^-1074, 2^-1000, 1e-300, 1e-30, 1e-16, "
         "2^-53, 1-2^-53}; (ii) Metadata.q_vectors of real samples (massive banana graphs L=1..4, D=1..6) against the definition "
         "evaluated with mpmath. Non-trivial: L>=2 (pairing across loop vectors), D*L odd and even both counted")
